@@ -411,7 +411,7 @@ func healthyRoundTrip(pv, pa *simrt.Proc, cfg sessCfg, dir, tag string, victimIs
 		_ = st.Flush(false)
 	})
 	simrt.Recv(done)
-	t := time.NewTimer(30 * time.Second)
+	t := simrt.NewTimer(30 * time.Second)
 	i, v, _ := simrt.Select(false, simrt.RecvCase(ok), simrt.RecvCase(t.C))
 	t.Stop()
 	if i != 0 || !v.Bool() {
